@@ -39,6 +39,9 @@ def run(ctx):
 
     res = BO.run_all(ctx.tier, ctx.seed)
     bad = [r for r in res if r["problems"]]
+    und = [r for r in res if r.get("undecided")]
+    if und:
+        ctx.engine_error("C09 exact enumeration cannot drive the current sample(): %s" % und[0]["undecided"])
     ctx.add_bounded("orders brute force + exact enumeration of sample()", "every tree on <= %d data points (any outliers; <=2 outliers from 4 points)" % (4 if ctx.tier == "quick" else 5),
                     sum(r["paths"] for r in res), len(res), not bad)
     for r in bad[:6]:
